@@ -72,8 +72,8 @@ prop("C04",
 h("C04", "c04::c04_header", funcs=["decode_message_header"], space="all byte strings of length 0..=40", bounds="L = 40; no loop", mem=10)
 h("C04", "c04::c04_rda_status", tier="thorough", funcs=["decode_rda_status_message"], space="all byte strings of length 0..=130", bounds="L = 130", mem=12, mfs=160)
 h("C04", "c04::c04_vcp", tier="thorough", funcs=["decode_volume_coverage_pattern"], space="all byte strings of length 0..=168, cut count free in 0..=65535", bounds="L = 168, unwind 5 (<= 3 cuts fit)", mem=16, mfs=200, unwind_is_violation=True, timeout=1800)
-h("C04", "c04::c04_clutter_map", tier="thorough", funcs=["decode_clutter_filter_map"], space="all byte strings of length 0..=44, segment and zone counts free", bounds="L = 44, unwind 24", mem=16, unwind_is_violation=True, timeout=1800)
-h("C04", "c04::c04_type31", tier="thorough", funcs=["decode_digital_radar_data", "Message::radial", "GenericDataBlock::new"], space="all byte strings of length 0..=104 with block count <= 2; pointers, names, gates, word size free", bounds="L = 104, blocks <= 2, unwind 12", mem=24, mfs=128, unwind_is_violation=True, timeout=2400)
+h("C04", "c04::c04_clutter_map", tier="probe", funcs=["decode_clutter_filter_map"], space="all byte strings of length 0..=44, segment and zone counts free", bounds="L = 44, unwind 24", mem=16, unwind_is_violation=True, timeout=1800)
+h("C04", "c04::c04_type31", tier="probe", funcs=["decode_digital_radar_data", "Message::radial", "GenericDataBlock::new"], space="all byte strings of length 0..=104 with block count <= 2; pointers, names, gates, word size free", bounds="L = 104, blocks <= 2, unwind 12", mem=24, mfs=128, unwind_is_violation=True, timeout=2400)
 
 # ------------------------------------------------------------------------------------------- C02
 prop("C02",
@@ -148,7 +148,7 @@ for k, mem, to in ((0, 8, 600), (1, 10, 900), (2, 12, 1500)):
     h("C05", "c05::c05_tiling_k%d" % k, funcs=["volume::File::records", "volume::split_compressed_records", "Record::data"], space="all files of %d records, |size| <= 4, any sign, any bytes" % k, bounds="K = %d, unwind 10" % k, mem=mem, timeout=to)
 h("C05", "c05::c05_tiling_k3", tier="thorough", funcs=["volume::File::records", "volume::split_compressed_records"], space="all files of 3 records, |size| <= 8", bounds="K = 3, unwind 14", mem=24, timeout=3600)
 h("C05", "c05::c05_header_fields_ascii", funcs=["volume::Header::{deserialize,tape_filename,extension_number,icao_of_radar,date_time}"], space="all 24-byte headers whose three text fields are ASCII; date/time words free", bounds="unwind 14", mem=8, timeout=1800)
-h("C05", "c05::c05_header_fields", tier="thorough", funcs=["volume::Header::{deserialize,tape_filename,extension_number,icao_of_radar,date_time}"], space="all 2^192 headers", bounds="unwind 12 (9-byte UTF-8 validation)", mem=8, timeout=1800)
+h("C05", "c05::c05_header_fields", tier="probe", funcs=["volume::Header::{deserialize,tape_filename,extension_number,icao_of_radar,date_time}"], space="all 2^192 headers", bounds="unwind 12 (9-byte UTF-8 validation)", mem=8, timeout=1800)
 
 # ------------------------------------------------------------------------------------------- C07
 prop("C07",
@@ -199,7 +199,7 @@ DM = ["decode_messages", "decode_message_header", "decode_message_contents"]
 for nm, sp in (("c03_frame_t15_fragment27", "type 15 + trailing fragment of 27 symbolic bytes"), ("c03_frame_t15_fragment1", "type 15 + 1 trailing byte"), ("c03_frame_t2_fragment13", "type 2 (status) + 13-byte fragment"), ("c03_frame_t5", "type 5 (VCP)"),
                ("c03_frame_t0", "type 0"), ("c03_frame_t33_fragment27", "type 33 + 27-byte fragment"), ("c03_frame_t255", "type 255")):
     h("C03", "c03::%s" % nm, tier="quick" if nm in ("c03_frame_t15_fragment27", "c03_frame_t15_fragment1", "c03_frame_t5") else "thorough", funcs=DM, space="one 2432-byte frame, %s; message header symbolic" % sp, bounds="1 message, concrete type code; unwind 30", mfs=2600, mem=16, timeout=1800)
-h("C03", "c03::c03_one_opaque_frame_any_type", tier="thorough", funcs=DM, space="one frame, all 253 opaque type codes symbolic", bounds="1 message; unwind 30", mfs=2600, mem=24, timeout=7200)
+h("C03", "c03::c03_one_opaque_frame_any_type", tier="probe", funcs=DM, space="one frame, all 253 opaque type codes symbolic", bounds="1 message; unwind 30", mfs=2600, mem=24, timeout=7200)
 for nm, sp in (("c03_frame15_then_type31", "[frame 15][type-31 with one ELV block]"), ("c03_type31_then_frame15", "[type-31][frame 15]"), ("c03_type31_then_frame2", "[type-31][frame 2]")):
     h("C03", "c03::%s" % nm, tier="quick" if nm != "c03_type31_then_frame2" else "thorough", funcs=DM + ["decode_digital_radar_data"], space="%s; both headers and the elevation number symbolic" % sp, bounds="2 messages, concrete frame type; unwind 30", mfs=2600, mem=20, timeout=2400)
 h("C03", "c03::c03_two_frames_same_type", funcs=DM, space="two type-15 frames, both headers symbolic (any segment count/number)", bounds="2 messages; unwind 30", mfs=5000, mem=20, timeout=2400)
@@ -214,7 +214,7 @@ h("C13", "c13::c13_structure_s0", tier="probe", funcs=CFM, space="all headers wi
 h("C13", "c13::c13_structure_s1", tier="probe", funcs=CFM, space="1 segment x 360 azimuths; zones (2,1,2) at azimuths 0,1,359 with symbolic values", bounds="S = 1; unwind 362", mfs=16384, mem=24, timeout=10800)
 h("C13", "c13::c13_structure_s2", tier="probe", funcs=CFM, space="2 segments x 360 azimuths; zones (1,0,2)", bounds="S = 2; unwind 362", mfs=16384, mem=40, timeout=21600)
 h("C13", "c13::c13_truncated", tier="probe", funcs=CFM, space="one declared segment, zero zone counts, every cut point 0..=726", bounds="unwind 362", mfs=16384, mem=24, timeout=10800, unwind_is_violation=True)
-h("C04", "c04::c04_type31_one_block_free", tier="thorough", funcs=["decode_digital_radar_data", "Message::radial", "GenericDataBlock::new"], space="all 2^(8*74) 76-byte inputs with block count 1: pointer, block type/name, gates, word size free", bounds="fixed length 76, 1 block; unwind 12", mem=16, mfs=128, unwind_is_violation=True, timeout=2400)
+h("C04", "c04::c04_type31_one_block_free", tier="probe", funcs=["decode_digital_radar_data", "Message::radial", "GenericDataBlock::new"], space="all 2^(8*74) 76-byte inputs with block count 1: pointer, block type/name, gates, word size free", bounds="fixed length 76, 1 block; unwind 12", mem=16, mfs=128, unwind_is_violation=True, timeout=2400)
 h("C07", "z::c07_value_formula", kind="z", script="smt/z_c07.py", funcs=["GenericDataBlock::scaled_value (MIR)", "MomentData::value_of (MIR)"], space="all 2^16 raw gate values x all finite f32 scale x all finite f32 offset (levels: every f32 bit pattern)", bounds="loop-free closures: no bound; QF_FP, z3 and cvc5 must agree", mem=6, timeout=1200)
 for nm, sp in (("c04_type31_unknown_name", "unknown ASCII block name XYZ"), ("c04_type31_moment_free_sizes", "moment block REF"), ("c04_type31_non_utf8_name", "non-UTF-8 block name ff fe 41")):
     h("C04", "c04::%s" % nm, funcs=["decode_digital_radar_data", "Message::radial", "GenericDataBlock::new"], space="76-byte message, one block at offset 36 (%s): block type, gate count, word size, scale, offset free; other bytes zero" % sp, bounds="fixed length 76, concrete name; unwind 12", mem=12, mfs=128, unwind_is_violation=True, timeout=1800)
@@ -238,7 +238,7 @@ prop("C14",
      level_text="Bounded model checking of summarize::messages on lists of up to 2 (quick) / 3 (thorough) messages whose kinds (radial, status, VCP, other), elevation numbers and opaque type codes are symbolic (times of day concrete, non-monotone), against an independent single-pass reference written in the harness: tiling, spans, maximal runs, singleton status/VCP groups, continuation flag, first/last azimuth and time, collection-time range.",
      level_note="Trusted: Kani/CBMC. std::hash::RandomState::new stubbed to fixed SipHash keys (the real one calls the OS); alloc::fmt::format stubbed, so the strings inside RDAStatusInfo/VCPInfo are empty and not compared. Radials carry no moment or volume blocks here: per-group data-type counts and the VCP set (HashMap/HashSet inserts with string keys) are not claimed.",
      outside="lists longer than 3; data-type counts and the VCP set; text of status/VCP info")
-for n, tier, mem, to in ((0, "quick", 8, 900), (1, "quick", 16, 1800), (2, "quick", 24, 2400), (3, "thorough", 40, 7200)):
+for n, tier, mem, to in ((0, "probe", 8, 900), (1, "probe", 16, 1800), (2, "probe", 24, 2400), (3, "probe", 40, 7200)):
     h("C14", "c14::c14_summary_n%d" % n, tier=tier, funcs=["summarize::messages", "summarize::rda::extract_rda_status_info", "summarize::vcp::extract_vcp_info", "MessageHeader::{message_type,date_time}"], space="all lists of %d messages: kinds^%d x elevation numbers x opaque type codes; concrete non-monotone times" % (n, n), bounds="N = %d" % n, mem=mem, timeout=to, mfs=4096)
 h("C19", "c19::c19_estimate_history", tier="probe", funcs=["realtime::estimate_next_chunk_time", "ChunkTimingStats::{new,add_timing,get_average_timing,get_average_attempts}", "std HashMap/VecDeque"], space="11 samples under one key (durations 0..=60000 ms, attempts 1..=5, all symbolic) + 1 sample under another key", bounds="exactly 11+1 recorded samples; unwind 24", mfs=4096, mem=24, timeout=10800)
 h("C13", "c13::c13_truncated_last_zones", tier="probe", funcs=CFM, space="one segment whose azimuth 359 declares two zones; cut at 726..=734", bounds="unwind 362", mfs=16384, mem=24, timeout=10800, unwind_is_violation=True)
@@ -262,3 +262,4 @@ for nm, sp in (("c02_two_vol_ref", "VOL then REF, contiguous, pointers in order"
     h("C02", "c02::%s" % nm, tier="quick" if nm in ("c02_two_ref_vol_permuted_gaps",) else "thorough", funcs=D31, space="header + 2 blocks (%s): all other bytes symbolic, word size 8|16" % sp, bounds="2 blocks, concrete layout; unwind 10", mfs=256, mem=16, timeout=2400)
 h("C13", "c13::c13_truncated_early", tier="probe", funcs=CFM, space="one declared segment, zero zone counts, every cut point 0..=30", bounds="L = 30; unwind 16", mem=12, timeout=1800, unwind_is_violation=True)
 h("C09", "c09::c09_merge_stable_12_12_concrete", tier="thorough", funcs=MG, space="one concrete pair of 12-radial sweeps with pairwise colliding azimuth numbers (24 elements: beyond the insertion-sort threshold)", bounds="concrete input; unwind 26", mfs=16384, mem=24, timeout=3600)
+h("C14", "c14::c14_probe_concrete", tier="probe", mfs=4096, mem=16, timeout=1200)
